@@ -97,6 +97,34 @@ pub fn case(t: &mut Tape, scratch: &Scratch, bins: &Bins) -> CaseResult {
     for (_, o) in p.files.iter_mut() {
         clamp_literals(o);
     }
+    // one project in six carries two independent reference errors (dangling targets or a cycle) in
+    // one file: the reported diagnostic must not depend on where the keys sit in the file
+    let mut two_errors = false;
+    if t.chance(1, 6) {
+        let keys: Vec<(Option<String>, String)> = p.files.keys().cloned().collect();
+        let fk = keys[t.pick(keys.len())].clone();
+        let ns = fk.0.clone();
+        let mk = |to: &str| {
+            Piece::Fk(Fk {
+                ns: ns.clone(),
+                path: vec![to.to_string()],
+                args: vec![],
+                ws: Default::default(),
+            })
+        };
+        let pair: [(String, Value); 2] = if t.coin() {
+            [("zz_bad_ref".to_string(), Value::Str(vec![mk("nope_a")])), ("aa_bad_ref".to_string(), Value::Str(vec![Piece::Text("x".into()), mk("nope_b")]))]
+        } else {
+            [("zz_cyc".to_string(), Value::Str(vec![mk("aa_cyc")])), ("aa_cyc".to_string(), Value::Str(vec![mk("zz_cyc")]))]
+        };
+        if let Some(o) = p.files.get_mut(&fk) {
+            for e in pair {
+                let pos = t.pick(o.len() + 1);
+                o.insert(pos, e);
+            }
+            two_errors = true;
+        }
+    }
     let pj = ser::project_to_json(&p);
     let manifest = ser::manifest_text(&p, true);
     let dir = scratch.0.join("j");
@@ -131,8 +159,10 @@ pub fn case(t: &mut Tape, scratch: &Scratch, bins: &Bins) -> CaseResult {
         observations += 1;
         nonidentity = true;
         if b != a1 {
-            // errors may legitimately name a different key first when several keys are broken
-            if !loaded_ok && !b.starts_with("LOAD PANIC") && (b.starts_with("LOAD ERROR") == a1.starts_with("LOAD ERROR")) {
+            // a file that does not deserialize reports the first offending key in *file* order (serde
+            // streams the file): only there may the message depend on the key order
+            let deser = |d: &str| d.starts_with("LOAD ERROR: Parsing of file");
+            if !loaded_ok && (deser(&a1) || deser(&b)) && b.starts_with("LOAD ERROR") && a1.starts_with("LOAD ERROR") {
                 continue;
             }
             return Err(fail("key-order-dependence", json!({"diff": first_diff(&a1, &b), "project": pj})));
@@ -199,6 +229,9 @@ pub fn case(t: &mut Tape, scratch: &Scratch, bins: &Bins) -> CaseResult {
     if has_warning {
         classes.push("has-warning".into());
     }
+    if two_errors {
+        classes.push("two-reference-errors-in-one-file".into());
+    }
     if p.namespaces.is_some() {
         classes.push("namespaces".into());
     }
@@ -244,11 +277,12 @@ pub fn run(mut ctx: Ctx) -> ! {
          BuildersKeys, warnings (order included) and token-stream text; (ii) 3 sampled permutations of the object-key order of \
          every file give the same dump; (iii) two fresh processes (new HashMap seeds) give the same dump; (iv) the same AST \
          printed as YAML and as JSON5 and loaded by the yaml / json5 builds gives the same key tree, members, diagnostics and \
-         evaluated text under a fixed argument policy (numeric literal types excluded). non-trivial = loads, >=8 keys, >=1 `$t`, \
+         evaluated text under a fixed argument policy (numeric literal types excluded); one project in six carries two \
+         independent reference errors in one file, whose reported diagnostic must be the same for every key order. non-trivial = loads, >=8 keys, >=1 `$t`, \
          >=1 plural group, >=1 warning, non-identity permutation; distinct = project hash",
         &[
             "integers above i64::MAX are excluded (json5 reads them as floats: a documented-type difference, not text)",
-            "when the project is rejected, only the fact of rejection is compared across orders / formats (several keys may be at fault)",
+            "errors raised while deserializing a file name the first offending key in file order (serde streams): only those may depend on key order; across formats only the fact of rejection is compared",
         ],
         10,
     )
